@@ -89,6 +89,24 @@ KF_action_on_running_act(pid, u) ==
 (* delivers a complete event after the error event (context.rs:327-441).     *)
 KF_alive_after_error(pid) == procs[pid].ev.first = "error" /\ procs[pid].ev.start = 1
 
+(* KF_step_timeout_review: a STEP with a timeout rule: when the rule has     *)
+(* fired and its steps finish, they review the step, and the review counts   *)
+(* only the tasks that hang directly off the step (its first act, its        *)
+(* branches, the timeout steps) - not the acts chained behind the first act. *)
+(* The step completes and starts its successor while a later act of its own  *)
+(* list is still open or not even started (step.rs:97-135).                  *)
+FiredStepRule(pid, s) ==
+  /\ ND(pid, s).kind = "step"
+  /\ \E i \in DOMAIN ND(pid, s).timeouts :
+       LET inst == { u \in TaskKeys(pid) : TS(pid, u).prev = s
+                       /\ \E c \in DOMAIN ND(pid, s).tkids :
+                            ND(pid, s).tkids[c].on = ND(pid, s).timeouts[i].on
+                            /\ ND(pid, s).tkids[c].id = u[1] }
+       IN inst # {} /\ \A u \in inst : IsDone(TS(pid, u).st)
+KF_step_timeout_review(pid, t) ==
+  \E s \in AncSet(P(pid), t) : FiredStepRule(pid, s)
+KF_step_timeout_review_p(pid) == \E s \in TaskKeys(pid) : FiredStepRule(pid, s)
+
 (* KF_nested_review_dup: a step whose review (or next) resumes a pending    *)
 (* else/needs branch that has no steps: the branch finishes inline, reviews *)
 (* the step (which completes and reports), and the outer review, seeing the *)
@@ -106,7 +124,8 @@ KF_nested_review_dup(pid, t) ==
 (* its terminal event or waits on an open interrupt act.                     *)
 V_C01_QuiescentOK ==
   IF ~Quiescent THEN {}
-  ELSE { V("C01_QuiescentOK", pid, NoKey, {}) :
+  ELSE { V("C01_QuiescentOK", pid, NoKey,
+             {k \in {"KF_step_timeout_review"} : KF_step_timeout_review_p(pid)}) :
            pid \in { q \in LivePids : ~Terminated(q) /\ ~OpenIrq(q) } }
 
 (* C02 — only legal transitions; every write is judged where it happens      *)
@@ -124,7 +143,8 @@ V_C02_Lifecycle ==
 V_C03_ParentDone ==
   UNION { UNION { { V("C03_ParentDone", pid, u,
                       {k \in {"KF_back_enclosing"} : KF_back_enclosing(pid, u)}
-                      \cup {k \in {"KF_action_on_running_act"} : KF_action_on_running_act(pid, u)})
+                      \cup {k \in {"KF_action_on_running_act"} : KF_action_on_running_act(pid, u)}
+                      \cup {k \in {"KF_step_timeout_review"} : KF_step_timeout_review(pid, u)})
                     : u \in { x \in Desc(P(pid), t) : ~IsDone(TS(pid, x).st) } }
                   : t \in { x \in TaskKeys(pid) : TS(pid, x).st = "completed" } }
           : pid \in LivePids }
@@ -156,7 +176,8 @@ V_C03_TerminalEvent ==
 V_C03_CleanEnding ==
   UNION { { V("C03_CleanEnding", pid, t,
               {k \in {"KF_back_enclosing"} : KF_back_enclosing(pid, t)}
-              \cup {k \in {"KF_action_on_running_act"} : KF_action_on_running_act(pid, t)})
+              \cup {k \in {"KF_action_on_running_act"} : KF_action_on_running_act(pid, t)}
+              \cup {k \in {"KF_step_timeout_review"} : KF_step_timeout_review_p(pid)})
             : t \in { x \in TaskKeys(pid) : ~IsDone(TS(pid, x).st) } }
           : pid \in { q \in LivePids : procs[q].ev.kinds = {"complete"} } }
 
@@ -327,6 +348,62 @@ V_C08_ParentFirst ==
           : pid \in LivePids }
 
 -----------------------------------------------------------------------------
+(* C19 — timeout rules.  A rule's steps are the tasks of its step nodes that  *)
+(* hang off the timed task.                                                   *)
+RuleInst(pid, t, on) ==            \* (a step re-created by back/cancel is not a firing)
+  { u \in TaskKeys(pid) : TS(pid, u).prev = t /\ ~TS(pid, u).redo
+                           /\ \E c \in DOMAIN ND(pid, t).tkids :
+                                ND(pid, t).tkids[c].on = on /\ ND(pid, t).tkids[c].id = u[1] }
+Rules(pid, t) == { ND(pid, t).timeouts[i] : i \in DOMAIN ND(pid, t).timeouts }
+FirstSteps(pid, t, on) == { c \in DOMAIN ND(pid, t).tkids : ND(pid, t).tkids[c].on = on }
+
+(* at most once per task instance and rule *)
+V_C19_Once ==
+  UNION { { V("C19_Once", pid, t, {}) :
+              t \in { x \in TaskKeys(pid) :
+                       \E r \in Rules(pid, x) :
+                         Cardinality(RuleInst(pid, x, r.on)) > Cardinality(FirstSteps(pid, x, r.on)) } }
+          : pid \in LivePids }
+
+(* never before the task has been open for the configured duration *)
+V_C19_NeverEarly ==
+  UNION { { V("C19_NeverEarly", pid, t, {}) :
+              t \in { x \in TaskKeys(pid) :
+                       \E r \in Rules(pid, x) : \E u \in RuleInst(pid, x, r.on) :
+                         TS(pid, u).born - TS(pid, x).start < r.secs } }
+          : pid \in LivePids }
+
+(* a task that reached a terminal state before the limit never triggers the rule *)
+V_C19_OnlyOpen ==
+  UNION { { V("C19_OnlyOpen", pid, t, {}) :
+              t \in { x \in TaskKeys(pid) :
+                       \E r \in Rules(pid, x) : \E u \in RuleInst(pid, x, r.on) : ~TS(pid, u).popen } }
+          : pid \in LivePids }
+
+(* no later than one tick after the limit while the task is still open: right  *)
+(* after a tick every open timed task whose limit has passed has fired         *)
+V_C19_Prompt ==
+  IF lastAct.a # "Tick" THEN {}
+  ELSE UNION { { V("C19_Prompt", pid, t, {}) :
+                   t \in { x \in TaskKeys(pid) :
+                            /\ ~IsDone(TS(pid, x).st) /\ TS(pid, x).start >= 0
+                            /\ TS(pid, x).st # "none"
+                            /\ \E r \in Rules(pid, x) :
+                                 /\ now - TS(pid, x).start >= r.secs
+                                 /\ FirstSteps(pid, x, r.on) # {}
+                                 /\ RuleInst(pid, x, r.on) = {} } }
+               : pid \in { q \in LivePids : P(q).ps = "running" } }
+
+(* firing a rule does not by itself close the timed task: a tick changes no    *)
+(* existing task's state                                                       *)
+C19_TickKeepsStatesStep ==
+  lastAct'.a = "Tick" =>
+    \A pid \in Pids : procs[pid].st # "absent" =>
+      \A t \in DOMAIN procs[pid].ts :
+        t \in DOMAIN procs'[pid].ts /\ procs'[pid].ts[t].st = procs[pid].ts[t].st
+C19_TickKeepsStates == [][C19_TickKeepsStatesStep]_vars
+
+-----------------------------------------------------------------------------
 (* the invariants TLC checks: each property modulo known findings ...        *)
 C01_QuiescentOK      == HoldsX(V_C01_QuiescentOK)
 C02_Lifecycle        == HoldsX(V_C02_Lifecycle)
@@ -351,6 +428,10 @@ C08_TerminalReported == HoldsX(V_C08_TerminalReported)
 C08_BranchSilent     == HoldsX(V_C08_BranchSilent)
 C08_MsgAct           == HoldsX(V_C08_MsgAct)
 C08_ParentFirst      == HoldsX(V_C08_ParentFirst)
+C19_Once             == HoldsX(V_C19_Once)
+C19_NeverEarly       == HoldsX(V_C19_NeverEarly)
+C19_OnlyOpen         == HoldsX(V_C19_OnlyOpen)
+C19_Prompt           == HoldsX(V_C19_Prompt)
 
 (* ... and everything at once, for the observed behaviours *)
 AllV ==
@@ -361,6 +442,7 @@ AllV ==
   \cup V_C06_Propagates \cup V_C06_CatchMatches \cup V_C06_CatchStepsOnce
   \cup V_C06_CaughtCompletes \cup V_C08_AtMostOne \cup V_C08_CreatedFirst
   \cup V_C08_TerminalReported \cup V_C08_BranchSilent \cup V_C08_MsgAct \cup V_C08_ParentFirst
+  \cup V_C19_Once \cup V_C19_NeverEarly \cup V_C19_OnlyOpen \cup V_C19_Prompt
 
 (* debugging aid: bound on instances per node *)
 DBG_FewInstances == \A pid \in Pids : Live(pid) => \A t \in TaskKeys(pid) : t[2] <= 3
